@@ -21,6 +21,9 @@ m("M1", "C10", "G-cancel", ("x/sao/keeper/msg_server_cancel.go", "if !isCreator 
 m("M1b", "C10", "G-cancel", ("x/sao/keeper/msg_server_cancel.go", "} else if msg.Provider == order.Provider {", "} else {"))
 m("M2", "C10", "G-complete", ("x/sao/keeper/msg_server_complete.go", "if msg.Provider == msg.Creator {", "if msg.Provider == order.Provider {"))
 m("M2b", "C10", "G-complete", ("x/sao/keeper/msg_server_complete.go",
+   '\tif shard.Status == ordertypes.ShardCompleted {\n\t\terr = sdkerrors.Wrapf(types.ErrShardCompleted, "%s already completed the shard task in order %d", msg.Provider, order.Id)\n\t\treturn &types.MsgCompleteResponse{}, err\n\t}\n\n\tif shard.Status != ordertypes.ShardWaiting && shard.Status != ordertypes.ShardMigrating {\n\t\terr = sdkerrors.Wrapf(types.ErrShardUnexpectedStatus, "invalid shard status, expect: waiting/migrating")\n\t\treturn &types.MsgCompleteResponse{}, err\n\t}\n', ''))
+# removing only the explicit completed test is equivalent: the waiting/migrating test that follows implies it
+m("C-18", "C10", "", ("x/sao/keeper/msg_server_complete.go",
    '\tif shard.Status == ordertypes.ShardCompleted {\n\t\terr = sdkerrors.Wrapf(types.ErrShardCompleted, "%s already completed the shard task in order %d", msg.Provider, order.Id)\n\t\treturn &types.MsgCompleteResponse{}, err\n\t}\n', ''))
 m("M-ready", "C10", "G-ready", ("x/sao/keeper/msg_server_ready.go", "} else if order.Provider == msg.Provider {", "} else {"))
 m("M-payer", "C10", "G-payer", ("x/sao/keeper/msg_server_store.go",
